@@ -60,6 +60,10 @@ class Report:
         key = key or "%s|%s" % (rid, instance)
         rec = dict(property=self.pid, rule=rid, rule_text=r["text"], instance=instance, where=where,
                    message=message, key=key, facts=facts or {})
+        if any(v["key"] == key for v in self.violations) or any(v["key"] == key for v in self.known_hit):
+            # same finding reached again (e.g. another instantiation of one template)
+            r["obligations"] -= 1
+            return
         if key in self.known:
             self.known_hit.append(rec)
             r["instances"].append({"instance": instance, "where": where, "known_finding": True})
@@ -128,10 +132,16 @@ class Report:
                   assumptions=self.assumptions, wall_s=round(wall, 3), violations=len(self.violations))
         if broken:
             ev["inconclusive"] = broken
-        os.makedirs(os.path.join(VERIF, "evidence"), exist_ok=True)
-        with open(os.path.join(VERIF, "evidence", self.pid + ".json"), "w") as fh:
-            json.dump(ev, fh, indent=1, default=str)
-            fh.write("\n")
+        no_ev = bool(os.environ.get("GM2_NO_EVIDENCE"))
+        if not no_ev:
+            os.makedirs(os.path.join(VERIF, "evidence"), exist_ok=True)
+            with open(os.path.join(VERIF, "evidence", self.pid + ".json"), "w") as fh:
+                json.dump(ev, fh, indent=1, default=str)
+                fh.write("\n")
+        if not no_ev:
+            import glob
+            for old in glob.glob(os.path.join(VERIF, "evidence", "replay", self.pid + "-*.json")):
+                os.remove(old)
         # console
         print("%s [%s]: %d obligations, %d discharged, %d violations, %d known findings (%.1fs)" % (
             self.pid, self.tier, obligations, discharged, len(self.violations), len(self.known_hit), wall))
@@ -143,7 +153,8 @@ class Report:
             print("INCONCLUSIVE property=%s: %s" % (self.pid, broken))
             return 2
         if self.violations:
-            rdir = os.path.join(VERIF, "evidence", "replay")
+            rdir = os.path.join(VERIF, "evidence", "replay") if not no_ev else \
+                os.path.join(os.environ.get("GM2_CACHE") or "/tmp", "replay")
             os.makedirs(rdir, exist_ok=True)
             for i, v in enumerate(self.violations):
                 path = os.path.join(rdir, "%s-%d.json" % (self.pid, i))
